@@ -45,7 +45,7 @@ func init() {
 				Min:  map[string]int64{"programs": 500}},
 			{Name: "programs", N: tier(250_000, 6_000_000), Run: c01Programs,
 				Rule: "PRNG programs as described above",
-				Min: map[string]int64{"programs": 20000, "lowres": 5000, "highres": 5000, "custom_viewbox": 5000, "custom_palette": 5000, "no_reset": 1000, "encoders_with_a_past": 20000, "resolution_toggled_programs": 5000,
+				Min: map[string]int64{"programs": 20000, "lowres": 5000, "highres": 5000, "custom_viewbox": 5000, "custom_palette": 5000, "no_reset": 1000, "encoders_with_a_past": 20000, "accessor_reads_between_calls": 100000, "resolution_toggled_programs": 5000,
 					"op_AbsArcTo": 1000, "op_RelArcTo": 1000, "op_SetCReg": 10000, "op_SetNReg": 10000, "op_SetLOD": 1000, "op_AbsHLineTo": 1000, "op_RelVLineTo": 1000}},
 			{Name: "transcode", N: tier(120_000, 3_000_000), Run: c01Transcode,
 				Rule: "decoder-accepted streams (corpus files, mutated corpus files, hand-assembled streams with non-canonical forms) fed to an Encoder and decoded again, 4 hops, with a low-resolution and a high-resolution Encoder",
@@ -73,6 +73,9 @@ func encodeProgram(ops []rec.Op, hires bool) ([]byte, error) {
 // past before the program under test (reported through c01Programs).
 var c01EncodersWithPast int64
 
+// c01AccessorReads counts the CSel/NSel/LOD calls interleaved with the programs.
+var c01AccessorReads int64
+
 // encodeProgramToggling additionally sets the public resolution flag to
 // toggles[i] right before call i. It returns, per call, whether low
 // resolution applies: the Encoder copies the flag at StartPath, so a change
@@ -89,6 +92,7 @@ func encodeProgramToggling(ops []rec.Op, hires bool, toggles map[int]bool) ([]by
 	}
 	e.HighResolutionCoordinates = hires
 	field, latched := hires, hires
+	accSalt := rec.HashOps(ops) ^ 0xacce55
 	lowres := make([]bool, len(ops))
 	for i := range ops {
 		if v, ok := toggles[i]; ok {
@@ -99,6 +103,18 @@ func encodeProgramToggling(ops []rec.Op, hires bool, toggles map[int]bool) ([]by
 			latched = field
 		}
 		lowres[i] = !latched
+		// the read-only accessors may be called at any time, also inside a path
+		if h := run.Hash64(accSalt, uint64(i)); h%9 == 0 {
+			switch (h >> 8) % 3 {
+			case 0:
+				e.CSel()
+			case 1:
+				e.NSel()
+			default:
+				e.LOD()
+			}
+			c01AccessorReads++
+		}
 		rec.Apply(&e, &ops[i])
 		if ops[i].K == rec.KReset {
 			e.HighResolutionCoordinates = hires
@@ -258,9 +274,10 @@ func c01Programs(c *run.Ctx, idx uint64) {
 			toggles[r.Intn(len(ops))] = r.Bool()
 		}
 	}
-	before := c01EncodersWithPast
+	before, beforeAcc := c01EncodersWithPast, c01AccessorReads
 	c01ForwardToggling(c, ops, hires, toggles, "programs")
 	c.Count("encoders_with_a_past", c01EncodersWithPast-before)
+	c.Count("accessor_reads_between_calls", c01AccessorReads-beforeAcc)
 }
 
 type c01BCase struct {
